@@ -14,16 +14,16 @@ CHECKS = {
              note=TRUST_M + 'Oracle: reference quoted-region scanner in props/c16.py (matching delimiters, doubled delimiters except for brackets, backslash escapes).',
              technique='symbolic execution of rustc MIR (KLEE-style path exploration) with z3 deciding every path assertion', ref='6/C16', engine=ENGINE_M),
  'C17': dict(text='Bounded symbolic execution of the real escape_string/unescape_string MIR (default bodies and SQLite overrides): for every string of up to L Unicode scalar values '
-                  '(L=3 quick, 5 thorough) on the three backends z3 proves unescape(escape(s)) = s character by character on every feasible path.',
+                  '(L=4 quick, 5 thorough) on the three backends z3 proves unescape(escape(s)) = s character by character on every feasible path.',
              note=TRUST_M, technique='symbolic execution of rustc MIR (KLEE-style path exploration) with z3 deciding every path assertion', ref='6/C17', engine=ENGINE_M),
 }
 CHECKS['C03'] = dict(text='Bounded symbolic execution of the real literal writers (value_to_string, write_string_quoted, write_bytes, escape_string, the inline SqlWriter, '
-                  'prepare_constant, ORDER BY FIELD, IN list, LIKE pattern / ESCAPE, and the schema builders at DEFAULT / CHECK / COMMENT / ENUM label / CREATE and ALTER TYPE label / partial-index positions) for every string of up to L Unicode scalar values (L=2 quick, 5 thorough), every char and every byte string '
+                  'prepare_constant, ORDER BY FIELD, IN list, LIKE pattern / ESCAPE, and the schema builders at DEFAULT / CHECK / COMMENT / ENUM label / CREATE and ALTER TYPE label / partial-index positions) for every string of up to L Unicode scalar values (L=3 quick (2 at schema positions), 5 thorough), every char and every byte string '
                   '(L=2/4) on the three backends: z3 proves on every path that the emitted text is exactly one literal token of the engine (reference lexer) whose decoded content equals the value.',
              note=TRUST_M + 'Oracle: reference lexers of MySQL / PostgreSQL / SQLite literal syntax in props/lexers.py. NUL excluded for PostgreSQL/SQLite text. Known finding: U+001A is written as \\z (see known_findings.txt).',
              technique='symbolic execution of rustc MIR with z3 deciding per-path assertions against reference lexers', ref='6/C03', engine=ENGINE_M)
 CHECKS['C04'] = dict(text='Bounded symbolic execution of the real identifier quoting (Iden::prepare/quoted, prepare_column_ref, prepare_table_ref, select/join/order/group renderers, Postgres enum cast) '
-                  'for every identifier of up to L Unicode scalar values (L=2 quick, 3 to 5 thorough) at 78 identifier positions (SELECT, INSERT / upsert, UPDATE, DELETE, WITH, window names, CREATE / ALTER / DROP / RENAME TABLE, index, constraint, foreign-key and Postgres type names) on the three backends: z3 proves on every path that exactly one quoted-identifier '
+                  'for every identifier of up to L Unicode scalar values (L=3 quick, 3 to 5 thorough) at 78 identifier positions (SELECT, INSERT / upsert, UPDATE, DELETE, WITH, window names, CREATE / ALTER / DROP / RENAME TABLE, index, constraint, foreign-key and Postgres type names) on the three backends: z3 proves on every path that exactly one quoted-identifier '
                   'token is emitted at each occurrence, that it decodes to the supplied name, and that the rest of the statement is unchanged.',
              note=TRUST_M + 'Oracle: quoted-identifier lexers (back-tick / double quote with doubling). Positions a dialect does not have are skipped (listed in props/c04.py NOT_ON). Known findings: Postgres ALTER TYPE .. RENAME TO writes a string literal, Postgres enum column type name is written unquoted.',
              technique='symbolic execution of rustc MIR with z3 deciding per-path assertions against reference lexers', ref='6/C04', engine=ENGINE_M)
